@@ -362,6 +362,7 @@ def runCase (xs : List Sexp) : Option String :=
   | [.atom "uctor", w, a] => do
     pure (kv "r" (optStr toString (Impl.wrap (← atomNat w) (← atomInt a))))
   | [.atom "eq2", _, _, _] => some "ok=1"
+  | [.atom "ctor", t, _, v] => do pure (runVal (← toTy t) (← toVal v))
   | [.atom "zh", d] => do pure (kv "zh" (hexOf (zeroHash H (← atomNat d))))
   | _ => none
 
